@@ -301,6 +301,19 @@ type IntB struct {
 	P2  *zoo.Inner
 	End int32
 }
+type IntD struct {
+	E0  []zoo.Inner
+	L   []zoo.Inner
+	E1  []zoo.Inner
+	L2  []zoo.Inner
+	E2  []zoo.Inner
+	PE0 []*zoo.Inner
+	PL  []*zoo.Inner
+	PE1 []*zoo.Inner
+	PL2 []*zoo.Inner
+	PE2 []*zoo.Inner
+	End int32
+}
 type IntC struct {
 	P   *zoo.Inner
 	L   []zoo.Inner
@@ -662,6 +675,33 @@ func init() {
 			// pointers into the inside of other values of the graph: the first field of a struct and the first
 			// element of a slice have the address of the whole; they are different objects
 			us = append(us, core.Unit{Name: "interior", Cost: 5, Run: func(c *core.Ctx) {
+				// a zero-length slice that still points at the start of a non-empty slice written in the same message
+				for mask := 0; mask < 32; mask++ {
+					if !c.Begin() {
+						continue
+					}
+					c.NontrivialN(1)
+					c.Res.States++
+					l := []zoo.Inner{{A: 1, S: "x"}, {A: 2, S: "y"}}
+					pl := []*zoo.Inner{{A: 3}, {A: 4}}
+					v := &IntD{End: 3}
+					if mask&1 != 0 {
+						v.E0, v.PE0 = l[:0], pl[:0]
+					}
+					if mask&2 != 0 {
+						v.L, v.PL = l, pl
+					}
+					if mask&4 != 0 {
+						v.E1, v.PE1 = l[:0], pl[:0]
+					}
+					if mask&8 != 0 {
+						v.L2, v.PL2 = l, pl
+					}
+					if mask&16 != 0 {
+						v.E2, v.PE2 = l[:0:0], pl[1:1]
+					}
+					c.Outcome(graphCheck(c, v, fmt.Sprintf("IntD with fields %05b set (empty sub-slices s[:0] before / between / after the slice they are cut from)", mask), "interior"))
+				}
 				for mask := 0; mask < 16; mask++ {
 					for form := 0; form < 3; form++ {
 						if !c.Begin() {
